@@ -8,6 +8,7 @@ two linear checks of the generated table `Gen.PY_LOWER` (`decide +kernel`): no o
 capital, and no output is itself a key (so `lower()` is idempotent on every string, `pyLower_idem`).
 -/
 import PyTRS.Lemmas.TrsRecog
+import PyTRS.Lemmas.RxEquiv
 import PyTRS.Lemmas.IntRepr
 namespace PyTRS
 open PyTRS.TRS
@@ -337,8 +338,9 @@ theorem search_tr (dcs : CharSet) (dirs : List Char)
   rw [all_seq, numRx_all 1 2 3 dcs dirs hd hdis, hp]
   simp [all_wordb, isWord, hw]
 
-theorem search_sec (a b : Char) (ha : asciiDigit a) (hb : asciiDigit b) :
-    ((Rx.seq (.wordb Gen.cs_14d6aa8a) (.seq (.rep (.chr Gen.cs_940665b9) 2 (some 2)) (.wordb Gen.cs_14d6aa8a))).search [a, b]).isSome
+/-- `\b<two digits>\b`, for any spelling `dd` of "two digits" (`\d{2}`, `\d\d`) -/
+theorem search_sec_of (dd : Rx) (hdd : TwoDigits dd) (a b : Char) (ha : asciiDigit a) (hb : asciiDigit b) :
+    ((Rx.seq (.wordb Gen.cs_14d6aa8a) (.seq dd (.wordb Gen.cs_14d6aa8a))).search [a, b]).isSome
       = true := by
   apply search_of_matchHere
   rw [matchHere_eq]
@@ -346,8 +348,26 @@ theorem search_sec (a b : Char) (ha : asciiDigit a) (hb : asciiDigit b) :
     simp [all_wordb, isWord, word_of_ascii ha]
   rw [all_seq, e0]
   simp only [List.flatMap_cons, List.flatMap_nil, List.append_nil]
-  rw [all_seq, digits22_all]
+  rw [all_seq, hdd]
   simp [all_wordb, isWord, word_of_ascii hb, isDigit_of_ascii ha, isDigit_of_ascii hb]
+
+theorem search_sec (a b : Char) (ha : asciiDigit a) (hb : asciiDigit b) :
+    ((Rx.seq (.wordb Gen.cs_14d6aa8a) (.seq (.rep (.chr Gen.cs_940665b9) 2 (some 2)) (.wordb Gen.cs_14d6aa8a))).search [a, b]).isSome
+      = true := search_sec_of _ twoDigits_rep a b ha hb
+
+/-- the section check of `construct_trs` accepts every two-digit text, whichever way the pattern spells "two digits" -/
+theorem search_sec_gen (a b : Char) (ha : asciiDigit a) (hb : asciiDigit b) :
+    (Gen.inl_trs_TRS_construct_trs_2.search [a, b]).isSome = true := by
+  first
+  | exact search_sec_of _ twoDigits_rep a b ha hb
+  | exact search_sec_of _ twoDigits_seq a b ha hb
+  | -- `\b\d\d\b` is translated to the flat sequence `[\b, \d, \d, \b]`: re-associate
+    (have e := (Rx.Equiv.seq (.refl (.wordb Gen.cs_14d6aa8a)) (Rx.Equiv.seq_assoc (.chr Gen.cs_940665b9)
+        (.chr Gen.cs_940665b9) (.wordb Gen.cs_14d6aa8a))).search [a, b] 0 [a, b].length
+     show ((Rx.seq (.wordb Gen.cs_14d6aa8a) (.seq (.chr Gen.cs_940665b9) (.seq (.chr Gen.cs_940665b9)
+        (.wordb Gen.cs_14d6aa8a)))).search [a, b]).isSome = true
+     rw [← e]
+     exact search_sec_of _ twoDigits_seq a b ha hb)
 
 theorem natToStr_length_le (n k : Nat) (hk : 0 < k) (h : n < 10 ^ k) : (natToStr n).length ≤ k := by
   rw [natToStr_eq]; exact (Nat.length_toDigits_le_iff (by omega) hk).mpr h
@@ -399,7 +419,7 @@ theorem finishTwpRge_num (n : Nat) (hn : n < 1000) (ch : Char) (hfix : pyLowerCh
 
 theorem finishSec_num (s : Nat) (hs : s < 100) : finishSec (.int s) = pyRJust (natToStr s) 2 '0' := by
   obtain ⟨a, b, e, ha, hb⟩ := pad2_two s hs
-  have h := search_sec a b ha hb
+  have h := search_sec_gen a b ha hb
   rw [finishSec_int, intToStr_cast]
   rw [intToStr_cast, e]; exact h
 
